@@ -216,7 +216,11 @@ def c12(res, tier, seed):
         n = r.randint(5, 10)
         for i in range(n):
             b = r.choice(vals)
-            toks.append(("%02X" % b, hexre.lit(b)) if (r.random() < 0.7 or i in (0, n - 1)) else ("??", hexre.mask(0, 0)))
+            c = r.random()
+            if c < 0.62 or i in (0, n - 1): toks.append(("%02X" % b, hexre.lit(b)))
+            elif c < 0.76: toks.append(("??", hexre.mask(0, 0)))
+            elif c < 0.88: toks.append(("?%X" % (b & 15), hexre.mask(b & 0x0f, 0x0f)))       # nibble wildcards: the atom that the table
+            else: toks.append(("%X?" % (b >> 4), hexre.mask(b & 0xf0, 0xf0)))                 # leaves as the best one may contain several
         lits = [t[1]["b"] if t[1]["t"] == "lit" else None for t in toks]
         wins = sorted({bytes(lits[i:i + 4]) for i in range(n - 3) if None not in lits[i:i + 4]})
         sub = [w for w in wins if r.random() < 0.6]
@@ -230,7 +234,7 @@ def c12(res, tier, seed):
         hex_metas.append((src, ast, table.hex()))
     hrecords, howners = [], []
     for ci in range(0, len(hex_groups), 400):
-        run, per = func.run_rule_cases("asan", hex_groups[ci:ci + 400], wd, "c12_qth_%d" % ci)
+        run, per = func.run_rule_cases("asan", hex_groups[ci:ci + 400], wd, "c12_qth_%d" % ci, extra_lines_before=["opt atomhook 1"])
         if not run.complete:
             rp = yv.save_replay("C12", "crash_qth_%d" % ci, {"crash": yv.crash_summary(run), "script": run.script_path})
             res.violation("driver did not complete: " + yv.crash_summary(run), rp)
@@ -240,6 +244,15 @@ def c12(res, tier, seed):
             if g is None or not g["ok"]:
                 continue
             src, ast, tab = hex_metas[ci + gi]
+            ats = g.get("atoms", [])
+            if ats and len({a_["s"] for a_ in ats}) == 1 and len(ats) <= 3000:      # whatever the table makes the engine choose must be necessary (Atoms.tla)
+                samples = []
+                for _ in range(12):
+                    v = hexre.sample(r, ast, [0x11, 0x22, 0x33, 0x44, 0x0a])
+                    if v not in samples: samples.append(v)
+                hrecords.append({"kind": "atoms", "sort": "re", "ast": ast, "ascii": True, "wide": False, "nocase": False, "dotall": True, "fullword": False,
+                                 "atoms": [{"b": a_["b"], "bt": a_["bt"]} for a_ in ats], "samples": [list(v) for v in samples]})
+                howners.append((src, "atoms", ats[:8], tab))
             for bi, b in enumerate(hex_groups[ci + gi]["bufs"]):
                 if g["rets"][bi] != 0:
                     continue
